@@ -27,8 +27,9 @@
 //     reported in-sync (DatastoreInSync()).
 //     - VTEP / route ordering, in the flush-boundary-aware form (see EndFlush): within one flush
 //     a route that needs the VTEP of node N (VXLAN pool type, dst_node_name N) is not added
-//     before N's VTEP if that VTEP is present at the end of the flush, and N's VTEP is not
-//     removed before the removal of a route that needed it.
+//     before N's VTEP if that VTEP is present at the end of the flush, N's VTEP is not
+//     removed before the removal of a route that needed it, and N's VTEP is not removed and
+//     re-added within one flush while present routes needed it.
 //
 // What is deliberately legal (checked against felix/dataplane/mock and the design docs):
 // IPSetUpdate for an existing id is a full replacement; updates of existing policies,
@@ -87,6 +88,10 @@ type Monitor struct {
 	// needing it both occurred / a VTEP remove and the remove of a route that needed it both occurred.
 	NumVTEPRouteAddFlushes int
 	NumVTEPRouteDelFlushes int
+	// NumVTEPModifiedWithLiveRoute: VTEP updates for a node whose VTEP was already present while a
+	// present route needed it (the situation in which the sequencer must squash the resolver's
+	// remove+update pair).
+	NumVTEPModifiedWithLiveRoute int
 
 	datastoreInSync bool
 
@@ -475,6 +480,17 @@ func (m *Monitor) OnEvent(msg any) error {
 		m.noteRemoved("route/" + e.Dst)
 
 	case *proto.VXLANTunnelEndpointUpdate:
+		if _, had := m.VTEPs[e.Node]; had || len(m.flushVTEPRemoved[e.Node]) > 0 {
+			live := len(m.flushVTEPRemoved[e.Node]) > 0
+			for _, r := range m.Routes {
+				if RouteNeedsVTEP(r) && r.DstNodeName == e.Node {
+					live = true
+				}
+			}
+			if live {
+				m.NumVTEPModifiedWithLiveRoute++
+			}
+		}
 		m.VTEPs[e.Node] = e
 		m.flushVTEPAdded[e.Node] = true
 		m.noteAdded("vtep/" + e.Node)
@@ -587,6 +603,17 @@ func (m *Monitor) EndFlush() error {
 	for node := range m.flushVTEPRemoved {
 		if m.flushRouteDelFor[node] {
 			relevantDel = true
+		}
+	}
+	// A VTEP that routes still needed was removed and re-added within this flush: the dataplane saw
+	// the referent disappear while referenced although the datastore only modified it.  (The
+	// sequencer squashes the resolver's remove+update pair, so this never happens on correct code;
+	// a VTEP that is genuinely gone at the end of the flush is legal.)
+	for _, node := range sortedKeys(m.flushVTEPRemoved) {
+		if dsts := m.flushVTEPRemoved[node]; len(dsts) > 0 {
+			if _, back := m.VTEPs[node]; back {
+				return fmt.Errorf("VTEP of node %q was removed and re-added within one flush while routes %v needed it", node, dsts)
+			}
 		}
 	}
 	if relevantAdd {
